@@ -3,6 +3,9 @@ From Coq Require Import ZArith List Bool Lia.
 Import ListNotations.
 Require Import PyBase Solver Tracer TracerNames TracerReindex.
 
+Lemma names_eqb_same l : names_eqb l l = true.
+Proof. induction l as [|x l IH]; [reflexivity|]. cbn [names_eqb]. rewrite Nat.eqb_refl. exact IH. Qed.
+
 Section ReindexFacts.
   Variable num : Type.
   Notation tderef := (tderef num).
@@ -55,16 +58,28 @@ Section ReindexFacts.
       intros [|i]; cbn [nth]; [rewrite Eq; reflexivity|exact (I4 i)].
   Qed.
 
-  (* FINDING (new period after reindex, still present): trace_t on a period that did not exist before reindex raises
-     AttributeError — for every names / label / values / reset — and changes nothing *)
-  Theorem reindex_new_period_raises positions cells i names reset lab res h :
+  (* since fix 3b0200f: the first trace_t on a period that did not exist before reindex() — its cell holds None — puts a
+     fresh Trace with this snapshot into the cell, for every names / label / values / reset, and touches no existing object.
+     (Before the fix `None.is_empty()` raised AttributeError: trace_t_cells_none_raises, below.) *)
+  Theorem reindex_new_period_gets_a_trace positions cells i names reset lab res h :
     nth i positions None = None ->
     let '(cs, h') := reindex_cells num positions cells h in
-    trace_t_cells names reset i lab res cs h' = ((cs, h'), Some AttributeError).
+    trace_t_cells names reset i lab res cs h'
+    = ((upd i (Some (length h')) cs, h' ++ [mkTrace names [lab] [res]]), None).
   Proof.
     intros H. pose proof (reindex_cells_fresh positions cells h) as F.
     destruct (reindex_cells num positions cells h) as [cs h']. destruct F as (_ & _ & _ & F).
     specialize (F i). rewrite H in F. unfold TracerReindex.trace_t_cells. unfold tcell, addr in *. rewrite F. reflexivity.
+  Qed.
+
+  Theorem reindex_new_period_raised_before_the_fix positions cells i names reset lab res h :
+    nth i positions None = None ->
+    let '(cs, h') := reindex_cells num positions cells h in
+    trace_t_cells_none_raises num names reset i lab res cs h' = ((cs, h'), Some AttributeError).
+  Proof.
+    intros H. pose proof (reindex_cells_fresh positions cells h) as F.
+    destruct (reindex_cells num positions cells h) as [cs h']. destruct F as (_ & _ & _ & F).
+    specialize (F i). rewrite H in F. unfold TracerReindex.trace_t_cells_none_raises. unfold tcell, addr in *. rewrite F. reflexivity.
   Qed.
 
   (* ---- what fix 28b2a9a removed (the reverse patch, reindex_cells_shared) ---- *)
@@ -80,19 +95,21 @@ Section ReindexFacts.
      REINDEXED instance with reset=False was appended to in place — in the object the original instance still holds *)
   Theorem reindex_without_deepcopy_shared positions cells i q r names lab res h c cs :
     nth i positions None = Some q -> nth q cells None = Some r -> (r < length h)%nat ->
-    tr_values (tderef h r) = c :: cs -> length c = length res ->
+    tr_values (tderef h r) = c :: cs -> length c = length res -> tr_names (tderef h r) = names ->
     let old := tderef h r in
     let '((cells', h'), e) := trace_t_cells names false i lab res (reindex_cells_shared positions cells) h in
     e = None /\ cells' = reindex_cells_shared positions cells /\
     tderef h' r = mkTrace (tr_names old) (tr_index old ++ [lab]) (tr_values old ++ [res]) /\
     tderef h' r <> old.
   Proof.
-    intros Hi Hq Hr Hv Hl. cbv zeta. unfold TracerReindex.trace_t_cells. rewrite reindex_cell, Hi. cbv beta iota. unfold tcell, addr in *. rewrite Hq.
-    unfold is_empty, append_trace. rewrite Hv. cbn [orb]. rewrite Hl, Nat.eqb_refl.
+    intros Hi Hq Hr Hv Hl Hn. cbv zeta. unfold TracerReindex.trace_t_cells. rewrite reindex_cell, Hi. cbv beta iota. unfold tcell, addr in *. rewrite Hq.
+    unfold afresh, is_empty. rewrite Hv, Hn.
+    rewrite names_eqb_same.
+    cbn [orb negb]. unfold append_trace. rewrite Hv. rewrite Hl, Nat.eqb_refl.
     split; [reflexivity|]. split; [reflexivity|].
     match goal with |- context [upd r ?n h] => set (new := n) end.
     assert (E : tderef (upd r new h) r = new) by (unfold TracerReindex.tderef; apply nth_upd_eq; exact Hr).
-    rewrite E. split; [subst new; reflexivity|]. intros Q.
+    rewrite E. split; [subst new; rewrite ?Hn; reflexivity|]. intros Q.
     apply (f_equal (fun x => length (tr_values x))) in Q. subst new. cbn [tr_values] in Q. rewrite Hv in Q.
     rewrite app_length in Q. cbn [length] in Q. lia.
   Qed.
@@ -100,7 +117,7 @@ Section ReindexFacts.
   (* trace_t through a cell whose Trace is empty, or with reset=True, never writes into an existing object: it puts a
      NEW Trace into the cell (so an untraced period of the original is not disturbed by the reindexed instance) *)
   Theorem trace_t_cells_fresh_object names reset p lab res cells h r :
-    nth p cells None = Some r -> is_empty num (tderef h r) || reset = true ->
+    nth p cells None = Some r -> afresh num (tderef h r) reset names = true ->
     let '((cells', h'), e) := trace_t_cells names reset p lab res cells h in
     cells' = upd p (Some (length h)) cells /\ (forall a, (a < length h)%nat -> tderef h' a = tderef h a).
   Proof.
@@ -166,72 +183,82 @@ Section ReindexFacts.
     - apply Nat.eqb_neq in E. apply nth_upd_neq. congruence.
   Qed.
 
-  (* When EVERY cell holds a Trace object of its own (no None, no two periods sharing an object) the reference-level
-     trace_t_cells, seen at the level of values, IS Tracer.trace_t: this is the standing assumption of every theorem that
-     speaks about `traces`.  (It holds after __init__, copy() and reindex() for the kept periods, and is preserved: the
-     new array again has a Trace in every cell, each its own.) *)
+  (* THE LINK.  On an array whose cells are None (a period added by reindex(), not traced yet) or Trace objects of their own
+     (no two periods sharing one), the reference-level trace_t_cells, seen at the level of values — a None cell reads as
+     the empty Trace — IS Tracer.trace_t, and the new array is again of that kind.  Such arrays are what __init__, copy()
+     and reindex() produce (tracer_init_spec, copy_cells_fresh, reindex_cells_fresh), so the theorems stated over `traces`
+     (lists of Trace values) speak about every instance the class can build.  (Before fix 3b0200f the None cells had to
+     be excluded: there trace_t raised AttributeError.) *)
   Theorem cells_refine_traces names reset p lab res cells h :
-    (forall i, (i < length cells)%nat -> exists r, nth i cells None = Some r /\ (r < length h)%nat) ->
+    (forall i r, nth i cells None = Some r -> (r < length h)%nat) ->
     (forall i j r, nth i cells None = Some r -> nth j cells None = Some r -> i = j) ->
     (p < length cells)%nat ->
     let '((cells', h'), e) := trace_t_cells names reset p lab res cells h in
     (view num cells' h', e) = trace_t_core num names reset p lab res (view num cells h)
-    /\ (forall i, (i < length cells')%nat -> exists r, nth i cells' None = Some r /\ (r < length h')%nat)
+    /\ (forall i r, nth i cells' None = Some r -> (r < length h')%nat)
     /\ (forall i j r, nth i cells' None = Some r -> nth j cells' None = Some r -> i = j)
     /\ length cells' = length cells.
   Proof.
-    intros Hall Hinj Hp. destruct (Hall p Hp) as (r & Hr & Hrl).
-    unfold TracerReindex.trace_t_cells, TracerReindex.trace_t_core. unfold tcell, addr in *. rewrite Hr.
-    rewrite view_nth. unfold tcell, addr in *. rewrite Hr.
-    destruct (is_empty num (tderef h r) || reset) eqn:Enew.
-    - destruct (append_trace num (mkTrace names [] []) lab res) as [new e].
+    intros Hall Hinj Hp.
+    assert (Hpl : Nat.ltb p (length cells) = true) by (apply Nat.ltb_lt; exact Hp).
+    (* the branch that puts a fresh object into cell p *)
+    assert (Fresh : forall new e,
+      afresh num (nth p (view num cells h) (empty_trace num)) reset names = true ->
+      append_trace num (mkTrace names [] []) lab res = (new, e) ->
+      (view num (upd p (Some (length h)) cells) (h ++ [new]), e) = trace_t_core num names reset p lab res (view num cells h)
+      /\ (forall i r, nth i (upd p (Some (length h)) cells) None = Some r -> (r < length (h ++ [new]))%nat)
+      /\ (forall i j r, nth i (upd p (Some (length h)) cells) None = Some r -> nth j (upd p (Some (length h)) cells) None = Some r -> i = j)
+      /\ length (upd p (Some (length h)) cells) = length cells).
+    { intros new e Ea Eapp. unfold TracerReindex.trace_t_core. rewrite Ea, Eapp.
       assert (Hlen : length (view num (upd p (Some (length h)) cells) (h ++ [new])) = length (upd p new (view num cells h))).
       { unfold TracerReindex.view. rewrite map_length, !upd_length, map_length. reflexivity. }
       split; [f_equal|].
-      + apply (nth_ext _ _ (empty_trace num) (empty_trace num) Hlen). intros i Hi.
-        assert (Hpl : Nat.ltb p (length cells) = true) by (apply Nat.ltb_lt; exact Hp).
+      - apply (nth_ext _ _ (empty_trace num) (empty_trace num) Hlen). intros i Hi.
         rewrite view_nth, !nth_upd_case, view_nth.
         unfold TracerReindex.view. rewrite map_length. unfold tcell, addr in *. rewrite !Hpl, !andb_true_r.
         destruct (Nat.eqb i p) eqn:E.
-        * unfold TracerReindex.tderef. rewrite app_nth2 by lia. rewrite Nat.sub_diag. reflexivity.
-        * assert (Hi' : (i < length cells)%nat).
-          { unfold TracerReindex.view in Hi. rewrite map_length, upd_length in Hi. exact Hi. }
-          destruct (Hall i Hi') as (ri & Hri & Hril). unfold tcell, addr in *. rewrite Hri.
-          unfold TracerReindex.tderef. apply app_nth1. exact Hril.
-      + split; [|split].
-        * intros i Hi. rewrite upd_length in Hi. rewrite nth_upd_case. rewrite app_length. cbn [length].
-          destruct (Nat.eqb i p && Nat.ltb p (length cells)); [exists (length h); split; [reflexivity|lia]|].
-          destruct (Hall i Hi) as (ri & Hri & Hril). exists ri. split; [exact Hri|lia].
-        * intros i j r0. rewrite !nth_upd_case.
-          assert (Hpl : Nat.ltb p (length cells) = true) by (apply Nat.ltb_lt; exact Hp). rewrite Hpl, !andb_true_r.
+        + unfold TracerReindex.tderef. rewrite app_nth2 by lia. rewrite Nat.sub_diag. reflexivity.
+        + destruct (nth i cells None) as [ri|] eqn:Hri; [|reflexivity].
+          unfold TracerReindex.tderef. apply app_nth1. exact (Hall i ri Hri).
+      - split; [|split].
+        + intros i r0. rewrite nth_upd_case, app_length. cbn [length]. unfold tcell, addr in *. rewrite Hpl, andb_true_r.
+          destruct (Nat.eqb i p); [intros Q; inversion Q; lia|]. intros Q. pose proof (Hall i r0 Q). lia.
+        + intros i j r0. rewrite !nth_upd_case. unfold tcell, addr in *. rewrite Hpl, !andb_true_r.
           destruct (Nat.eqb i p) eqn:Ei; destruct (Nat.eqb j p) eqn:Ej.
-          -- intros _ _. apply Nat.eqb_eq in Ei, Ej. congruence.
-          -- intros Q1 Q2. inversion Q1; subst r0. exfalso.
-             destruct (Nat.lt_ge_cases j (length cells)) as [Hj|Hj].
-             ++ destruct (Hall j Hj) as (rj & Hrj & Hrjl). unfold tcell, addr in *. rewrite Hrj in Q2. inversion Q2. lia.
-             ++ rewrite nth_overflow in Q2 by exact Hj. discriminate Q2.
-          -- intros Q1 Q2. inversion Q2; subst r0. exfalso.
-             destruct (Nat.lt_ge_cases i (length cells)) as [Hi|Hi].
-             ++ destruct (Hall i Hi) as (ri & Hri & Hril). unfold tcell, addr in *. rewrite Hri in Q1. inversion Q1. lia.
-             ++ rewrite nth_overflow in Q1 by exact Hi. discriminate Q1.
-          -- apply Hinj.
-        * apply upd_length.
-    - destruct (append_trace num (tderef h r) lab res) as [new e].
-      assert (Hlen : length (view num cells (upd r new h)) = length (upd p new (view num cells h))).
-      { unfold TracerReindex.view. rewrite upd_length, !map_length. reflexivity. }
-      split; [f_equal|].
-      + apply (nth_ext _ _ (empty_trace num) (empty_trace num) Hlen). intros i Hi.
-        rewrite view_nth, nth_upd_case, view_nth. unfold TracerReindex.view. rewrite map_length.
-        assert (Hi' : (i < length cells)%nat) by (unfold TracerReindex.view in Hi; rewrite map_length in Hi; exact Hi).
-        destruct (Hall i Hi') as (ri & Hri & Hril). unfold tcell, addr in *. rewrite Hri.
-        assert (Hpl : Nat.ltb p (length cells) = true) by (apply Nat.ltb_lt; exact Hp). rewrite Hpl, andb_true_r.
-        unfold TracerReindex.tderef. rewrite nth_upd_case.
-        assert (Hrl' : Nat.ltb r (length h) = true) by (apply Nat.ltb_lt; exact Hrl). rewrite Hrl', andb_true_r.
-        destruct (Nat.eqb i p) eqn:Ei.
-        * apply Nat.eqb_eq in Ei. subst i. rewrite Hr in Hri. inversion Hri; subst ri. rewrite Nat.eqb_refl. reflexivity.
-        * destruct (Nat.eqb ri r) eqn:Er; [|reflexivity].
-          apply Nat.eqb_eq in Er. subst ri. apply Nat.eqb_neq in Ei. exfalso. apply Ei. exact (Hinj i p r Hri Hr).
-      + split; [|split; [exact Hinj|reflexivity]].
-        intros i Hi. destruct (Hall i Hi) as (ri & Hri & Hril). exists ri. split; [exact Hri|rewrite upd_length; exact Hril].
+          * intros _ _. apply Nat.eqb_eq in Ei, Ej. congruence.
+          * intros Q1 Q2. inversion Q1; subst r0. pose proof (Hall j _ Q2). lia.
+          * intros Q1 Q2. inversion Q2; subst r0. pose proof (Hall i _ Q1). lia.
+          * apply Hinj.
+        + apply upd_length. }
+    unfold TracerReindex.trace_t_cells. unfold tcell, addr in *.
+    destruct (nth p cells None) as [r|] eqn:Hr.
+    - pose proof (Hall p r Hr) as Hrl.
+      assert (Hview : nth p (view num cells h) (empty_trace num) = tderef h r).
+      { rewrite view_nth. unfold tcell, addr in *. rewrite Hr. reflexivity. }
+      destruct (afresh num (tderef h r) reset names) eqn:Ea.
+      + destruct (append_trace num (mkTrace names [] []) lab res) as [new e] eqn:Eapp.
+        apply Fresh; [rewrite Hview; exact Ea|reflexivity].
+      + unfold TracerReindex.trace_t_core. rewrite Hview, Ea.
+        destruct (append_trace num (tderef h r) lab res) as [new e].
+        assert (Hlen : length (view num cells (upd r new h)) = length (upd p new (view num cells h))).
+        { unfold TracerReindex.view. rewrite upd_length, !map_length. reflexivity. }
+        split; [f_equal|].
+        * apply (nth_ext _ _ (empty_trace num) (empty_trace num) Hlen). intros i Hi.
+          rewrite view_nth, nth_upd_case, view_nth. unfold TracerReindex.view. rewrite map_length.
+          unfold tcell, addr in *. rewrite Hpl, andb_true_r.
+          destruct (nth i cells None) as [ri|] eqn:Hri.
+          -- unfold TracerReindex.tderef. rewrite nth_upd_case.
+             assert (Hrl' : Nat.ltb r (length h) = true) by (apply Nat.ltb_lt; exact Hrl). rewrite Hrl', andb_true_r.
+             destruct (Nat.eqb i p) eqn:Ei.
+             ++ apply Nat.eqb_eq in Ei. subst i. rewrite Hr in Hri. inversion Hri; subst ri. rewrite Nat.eqb_refl. reflexivity.
+             ++ destruct (Nat.eqb ri r) eqn:Er; [|reflexivity].
+                apply Nat.eqb_eq in Er. subst ri. apply Nat.eqb_neq in Ei. exfalso. apply Ei. exact (Hinj i p r Hri Hr).
+          -- destruct (Nat.eqb i p) eqn:Ei; [|reflexivity].
+             apply Nat.eqb_eq in Ei. subst i. rewrite Hr in Hri. discriminate Hri.
+        * split; [|split; [exact Hinj|reflexivity]].
+          intros i r0 Q. rewrite upd_length. exact (Hall i r0 Q).
+    - destruct (append_trace num (mkTrace names [] []) lab res) as [new e] eqn:Eapp.
+      apply Fresh; [|reflexivity].
+      rewrite view_nth. unfold tcell, addr in *. rewrite Hr. reflexivity.
   Qed.
 End ReindexFacts.
